@@ -39,7 +39,7 @@ def P(rid, off):
 
 
 class Region(object):
-    __slots__ = ("rid", "kind", "cap", "slen", "freed", "name", "nul", "site")
+    __slots__ = ("rid", "kind", "cap", "slen", "freed", "name", "nul", "site", "wver")
 
     def __init__(self, rid, kind, cap=None, slen=None, name="", site=None):
         self.rid = rid
@@ -50,11 +50,13 @@ class Region(object):
         self.name = name
         self.nul = None       # Lin offset known to hold a 0 byte
         self.site = site
+        self.wver = 0         # bumped on every write (loop summarisation needs to know which buffers a loop writes)
 
     def clone(self):
         r = Region(self.rid, self.kind, self.cap, self.slen, self.name, self.site)
         r.freed = self.freed
         r.nul = self.nul
+        r.wver = self.wver
         return r
 
 
@@ -212,6 +214,8 @@ class Cap(object):
         r = st.regions.get(val[1])
         if r is None:
             return
+        if write:
+            r.wver += 1
         if r.freed:
             self.fail(st, "freed", node, "%s of memory that was already released (%s)" % ("write" if write else "read", what))
             return
@@ -252,8 +256,7 @@ class Cap(object):
         if node.get("tp"):
             v = UNK
         elif node.get("tw"):
-            s = fresh("f_%s_" % key[1])
-            v = I(Lin.sym(s))
+            v = self.fresh_for(st, node, "f_%s_" % key[1])
         else:
             v = UNK
         st.heap[key] = v
@@ -366,7 +369,12 @@ class Cap(object):
     def fresh_for(self, st, n, prefix):
         if n.get("tp"):
             return UNK
-        return I(Lin.sym(fresh(prefix)))
+        x = fresh(prefix)
+        if n.get("ts") == 0:
+            st.cons.append(Lin.sym(x))
+            if n.get("tw") and n["tw"] <= 16:
+                st.cons.append(Lin.const((1 << n["tw"]) - 1) - Lin.sym(x))
+        return I(Lin.sym(x))
 
     def global_value(self, st, n):
         key = ("global", n.get("n"))
@@ -407,8 +415,8 @@ class Cap(object):
                     iszero = val[0] == "i" and val[1].is_const() and val[1].c == 0
                     if iszero and es == 1:
                         r.nul = pv[2]
-                        if r.slen is not None:
-                            pass
+                        if r.slen is None and pv[2].is_const() and pv[2].c == 0:
+                            r.slen = Lin.const(0)      # a zero at the very start: the empty string
                     elif r.nul is not None and not entails(st.cons, r.nul - pv[2] - es) and not entails(st.cons, pv[2] - r.nul - 1):
                         r.nul = None
                     if r.slen is not None and not iszero:
@@ -1353,10 +1361,12 @@ class Cap(object):
                         r.nul = A[0][2] + Lin.sym(ln)
                         r.slen = Lin.sym(ln) if (A[0][2].is_const() and A[0][2].c == 0) else None
             return [(st, I(Lin.sym(fresh("b"))))]
-        if cn in COUNTED_READERS and len(A) > max(COUNTED_READERS[cn]):
+        fn_ = self.prog.fn(cn) if cn else None
+        will_inline = fn_ is not None and self.inline and self.depth < self.MAX_INLINE and fn_.cfg is not None and not self.no_inline(fn_)
+        if cn in COUNTED_READERS and len(A) > max(COUNTED_READERS[cn]) and not will_inline:
             pi_, li_ = COUNTED_READERS[cn]
             if A[li_][0] == "i":
-                self.oblige(st, "count", n, A[li_][1], "negative length %s passed to %s" % (A[li_][1], cn))
+                self.oblige(st, "slice", n, A[li_][1], "negative length %s passed to %s" % (A[li_][1], cn))
             if A[pi_][0] == "p":
                 r_ = st.regions.get(A[pi_][1])
                 if r_ is not None:
@@ -1380,7 +1390,9 @@ class Cap(object):
         if n.get("tp"):
             return [(st, UNK)]
         if n.get("tw"):
-            return [(st, I(Lin.sym(fresh("r_%s_" % (cn or "call")))))]
+            r_ = fresh("r_%s_" % (cn or "call"))
+            st.imprecise.add(r_)      # nothing is known about the value an unmodelled callee returns
+            return [(st, I(Lin.sym(r_)))]
         return [(st, UNK)]
 
     def summary_mode(self, cn):
@@ -1831,7 +1843,46 @@ class Cap(object):
             self.forget_cells(h)
             return h, sub
 
+        # buffers the loop writes: their string length / terminator position are loop-carried too
+        written = set()
+        rs_ = self.record
+        self.record = False
+        try:
+            probe = pre.copy()
+            base_ver = {rid: r.wver for rid, r in probe.regions.items()}
+            for e_ in self.one_iteration(n, probe):
+                for rid, r in e_.regions.items():
+                    if rid in base_ver and r.wver != base_ver[rid]:
+                        written.add(rid)
+        except TooManyStates:
+            written = set(pre.regions)
+        finally:
+            self.record = rs_
         h, sub = havoc(pre)
+        for rid in sorted(written):
+            r0 = pre.regions.get(rid)
+            rh = h.regions.get(rid)
+            if r0 is None or rh is None:
+                continue
+            same = r0.slen is not None and r0.nul is not None and r0.slen == r0.nul
+            if r0.slen is not None:
+                x = fresh("rs")
+                h.imprecise.add(x)
+                h.cons.append(Lin.sym(x))
+                rh.slen = Lin.sym(x)
+                sub[("rslen", rid)] = ("i", x, r0.slen)
+                if same:
+                    rh.nul = Lin.sym(x)
+            if r0.nul is not None and not same:
+                x = fresh("rn")
+                h.imprecise.add(x)
+                h.cons.append(Lin.sym(x))
+                rh.nul = Lin.sym(x)
+                sub[("rnul", rid)] = ("i", x, r0.nul)
+            if r0.slen is None and r0.nul is None:
+                pass
+            if r0.slen is not None and r0.cap is not None:
+                pass
         # candidate invariants over the havocked symbols
         cands = []
         for key, info in sub.items():
@@ -1851,6 +1902,10 @@ class Cap(object):
                         cands.append(("off<=cap", r.cap - x))
             else:
                 cands.append(("nonneg", x)) if entails(pre.cons, e0) else None
+                if isinstance(key, tuple) and key and key[0] in ("rslen", "rnul"):
+                    rg = pre.regions.get(key[1])
+                    if rg is not None and rg.cap is not None:
+                        cands.append(("len<cap", rg.cap - x - 1))
         # integer variables used as indices into a buffer: bounded by its string length / terminator / capacity
         for part in ("cond", "body", "inc"):
             if n.get(part) is None:
@@ -1938,6 +1993,11 @@ class Cap(object):
         cands = [c for c in cands if c is not None]
 
         def value_of(sx, key, info):
+            if isinstance(key, tuple) and key and key[0] in ("rslen", "rnul"):
+                rg = sx.regions.get(key[1])
+                if rg is None:
+                    return None
+                return rg.slen if key[0] == "rslen" else rg.nul
             v = sx.env.get(key) if not isinstance(key, tuple) else sx.heap.get(key)
             if v is None:
                 return None
